@@ -72,6 +72,7 @@ type Contracts struct {
 	Immutable map[string]bool // "db.tableLeaf.cells"
 	Funs     map[string]*SpecFun
 	Macros   map[string]*Macro
+	TypeInvs []*TypeInv
 	Files    []string
 }
 
@@ -82,13 +83,19 @@ type Macro struct {
 	Expr   Expr
 }
 
+type TypeInv struct {
+	Type string
+	Text string
+	Expr Expr
+}
+
 type SpecFun struct {
 	Name string
 	Args []string
 	Ret  string
 }
 
-var headerRe = regexp.MustCompile(`^(func|iface|functype|extern|ghost|smt|axioms|lemma|immutable|closure|macro)\b\s*(.*)$`)
+var headerRe = regexp.MustCompile(`^(func|iface|functype|extern|ghost|smt|axioms|lemma|immutable|closure|macro|type-invariant)\b\s*(.*)$`)
 
 func LoadContracts(repo string) (*Contracts, error) {
 	cs := &Contracts{ByName: map[string]*Contract{}, Axioms: map[string]*SMTBlock{}, Immutable: map[string]bool{}, Funs: map[string]*SpecFun{}}
@@ -120,7 +127,8 @@ func (cs *Contracts) loadFile(path string) error {
 	var curSMT *SMTBlock
 	var lastClause *Clause
 	var curMacro *Macro
-	flush := func() { cur = nil; curSMT = nil; lastClause = nil; curMacro = nil }
+	var curInv *TypeInv
+	flush := func() { cur = nil; curSMT = nil; lastClause = nil; curMacro = nil; curInv = nil }
 	for ln, raw := range strings.Split(string(data), "\n") {
 		line := strings.TrimRight(raw, " \t\r")
 		if !strings.HasPrefix(strings.TrimLeft(line, " \t"), "//@") {
@@ -178,6 +186,15 @@ func (cs *Contracts) loadFile(path string) error {
 				}
 				cs.Macros[m.Name] = m
 				curMacro = m
+			case "type-invariant":
+				// type-invariant db.Database = expr over self
+				eq := strings.Index(rest, "=")
+				if eq < 0 {
+					return fmt.Errorf("%s: type-invariant TYPE = EXPR", where)
+				}
+				ti := &TypeInv{Type: strings.TrimSpace(rest[:eq]), Text: strings.TrimSpace(rest[eq+1:])}
+				cs.TypeInvs = append(cs.TypeInvs, ti)
+				curInv = ti
 			case "immutable":
 				for _, f := range strings.Fields(rest) {
 					cs.Immutable[f] = true
@@ -210,6 +227,10 @@ func (cs *Contracts) loadFile(path string) error {
 				cs.Order = append(cs.Order, c)
 				cur = c
 			}
+			continue
+		}
+		if curInv != nil && strings.HasPrefix(tb, "+") {
+			curInv.Text += " " + strings.TrimSpace(tb[1:])
 			continue
 		}
 		if curMacro != nil && strings.HasPrefix(tb, "+") {
@@ -359,6 +380,13 @@ func (cs *Contracts) ParseAll() error {
 			return fmt.Errorf("macro %s: %v", m.Name, err)
 		}
 		m.Expr = e
+	}
+	for _, ti := range cs.TypeInvs {
+		e, err := ParseExpr(ti.Text)
+		if err != nil {
+			return fmt.Errorf("type-invariant %s: %v", ti.Type, err)
+		}
+		ti.Expr = e
 	}
 	for _, c := range cs.Order {
 		var all []*Clause
